@@ -118,6 +118,39 @@ func lookup(v *model.Value, p []Step) (*model.Value, bool) {
 	return v, true
 }
 
+// lookupStrict reads a path the way a read-only traversal does: a missing key or index, a step into a scalar and an
+// index into a map read as nothing (nil, true); a key applied to a sequence fails.
+func lookupStrict(v *model.Value, p []Step) (*model.Value, bool) {
+	for _, s := range p {
+		if v == nil || v.IsScalar() {
+			return nil, true
+		}
+		if s.X {
+			if v.K != model.Seq {
+				return nil, true
+			}
+			i := s.I
+			if i < 0 {
+				i += len(v.Elem)
+			}
+			if i < 0 || i >= len(v.Elem) {
+				return nil, true
+			}
+			v = v.Elem[i]
+		} else {
+			if v.K == model.Seq {
+				return nil, false
+			}
+			x, ok := v.Get(s.K)
+			if !ok {
+				return nil, true
+			}
+			v = x
+		}
+	}
+	return v, true
+}
+
 // set is the reference set-path: creates maps/sequences, pads with null; returns false when the path is type-incompatible.
 func set(root *model.Value, p []Step, val *model.Value) (*model.Value, bool) {
 	if len(p) == 0 {
@@ -595,11 +628,54 @@ func check(c Case) hx.Verdict {
 		}
 		return ""
 	}
+	// the open finding as a reference of its own: the missing spine of every match is created first, then every
+	// match in turn receives v as the document reads at that moment. A result (or a failure) that this reading
+	// explains is attributed to the finding; anything else in the same region is a violation.
+	deviant := func(skipNothing bool) (doc *model.Value, failed bool) {
+		if c.VPath == nil {
+			return nil, false
+		}
+		dev := orig.Copy()
+		for _, m := range M {
+			if _, ok := lookup(dev, m.p); !ok {
+				var ok2 bool
+				if dev, ok2 = set(dev, m.p, model.NewNull()); !ok2 {
+					return nil, true
+				}
+			}
+		}
+		for _, m := range M {
+			val, ok := lookupStrict(dev, c.VPath)
+			if !ok {
+				return nil, true // reading through a node that an earlier write turned into another kind
+			}
+			if val == nil {
+				if skipNothing {
+					continue // the second read finds nothing (the node it went through is gone): no value, no write
+				}
+				val = model.NewNull()
+			}
+			var ok2 bool
+			if dev, ok2 = set(dev, m.p, val.Copy()); !ok2 {
+				return nil, true
+			}
+		}
+		return dev, false
+	}
 	if got == nil {
-		return hx.Bad(overlapSig(), "assignment failed (%s) where the laws define a result: expr=%s doc=%s", o.Err, expr, c.Doc)
+		sig := ""
+		if _, f := deviant(false); f && overlapSig() != "" {
+			sig = "deviant:rhs-read-after-write"
+		}
+		return hx.Bad(sig, "assignment failed (%s) where the laws define a result: expr=%s doc=%s", o.Err, expr, c.Doc)
 	}
 	if !model.EqualTol(got, exp, 1e-12) {
-		sig := overlapSig()
+		sig := ""
+		for _, skip := range []bool{false, true} {
+			if dev, f := deviant(skip); !f && dev != nil && model.EqualTol(got, dev, 1e-12) {
+				sig = "deviant:rhs-read-after-write"
+			}
+		}
 		return hx.Bad(sig, "put/frame: result %s differs from expected %s: expr=%s doc=%s", got.JSON(), exp.JSON(), expr, c.Doc)
 	}
 	if c.Form == "assign" && len(M) > 0 {
